@@ -333,8 +333,14 @@ fn check_encrypted(t: &Tuple, d: &Document) -> Vec<Failure> {
     };
     // ciphertext differs from plaintext (>= 16 bytes, non-identity filter)
     let mut sd: Vec<String> = vec![];
+    let mut md: Vec<String> = vec![];
     let mut other: Vec<String> = vec![];
     for (id, p) in &t.plain.objects {
+        // object-stream containers and cross-reference streams a loaded start document still holds are
+        // bookkeeping: the writer drops them and their numbers are reused
+        if is_structural(p) {
+            continue;
+        }
         let Some(o) = d.objects.get(id) else {
             out.push(Failure { inv: "encrypt-succeeds", detail: format!("object {} {} disappeared", id.0, id.1), finding: None, hard: true });
             return out;
@@ -343,6 +349,8 @@ fn check_encrypted(t: &Tuple, d: &Document) -> Vec<Failure> {
             if a.len() >= 16 && m != F::Identity && a == b {
                 if leaf == Leaf::StrInStreamDict {
                     sd.push(path.to_string());
+                } else if leaf == Leaf::StrInMetadataDict && !t.cfg.em {
+                    md.push(path.to_string());
                 } else {
                     other.push(path.to_string());
                 }
@@ -363,6 +371,14 @@ fn check_encrypted(t: &Tuple, d: &Document) -> Vec<Failure> {
             inv: "ciphertext-differs",
             detail: format!("{} string(s) inside stream dictionaries still equal their plaintext, first {}", sd.len(), sd[0]),
             finding: Some("stream-dict-strings"),
+            hard: false,
+        });
+    }
+    if !md.is_empty() {
+        out.push(Failure {
+            inv: "ciphertext-differs",
+            detail: format!("{} string(s) inside non-stream dictionaries typed /Metadata still equal their plaintext (EncryptMetadata false), first {}", md.len(), md[0]),
+            finding: Some("metadata-dict-exempt"),
             hard: false,
         });
     }
@@ -766,7 +782,7 @@ fn specs(run: &Run) -> (Vec<Spec>, u64) {
     const M: u64 = 97;
     for (ci, cfg) in configs.iter().enumerate() {
         for pi in 0..pairs.len() {
-            for (ki, kind) in DocKind::ALL.iter().enumerate() {
+            for (ki, kind) in DocKind::C05_ALL.iter().enumerate() {
                 if *kind == DocKind::Crypt && !cfg.has_filters() {
                     continue;
                 }
@@ -829,7 +845,7 @@ fn main() {
         replay(&run, &path);
     }
     run.rule(
-        "start tuples = document menu (6 documents hitting every path of encrypt_object/decrypt_object) x handler configurations \
+        "start tuples = document menu (8 documents hitting every path of encrypt_object/decrypt_object, incl. non-stream dictionaries typed /Metadata and a document loaded from an object-stream file and edited afterwards) x handler configurations \
          (V1; V2 x 12 key lengths; V4 x {RC4,AES-128,Identity}^2 x EncryptMetadata x two ways of naming Identity; R5; V5 x {AES-256,Identity}^2) \
          x 9 password pairs x permission sets {all, none, each single flag} x cross-reference format {table, stream} (revision 6: one format per tuple, alternating, and permission sets {all, none, one single flag in rotation}), enumerated in a fixed order without repetition; from each tuple a BFS to \
          depth 4 over 6 transitions on the real Document, deduplicated on (abstract state, has-passed-through-save/load); a tuple is non-trivial \
@@ -887,7 +903,7 @@ fn main() {
         json!(cpu.into_inner().unwrap().into_iter().map(|(k, v)| (k, (v * 10.0).round() / 10.0)).collect::<BTreeMap<String, f64>>()),
     );
     run.set("configurations", json!(menu::configs().len()));
-    run.set("documents", json!(DocKind::ALL.iter().map(|d| d.name()).collect::<Vec<_>>()));
+    run.set("documents", json!(DocKind::C05_ALL.iter().map(|d| d.name()).collect::<Vec<_>>()));
     run.set("password_pairs", json!(menu::password_pairs().iter().map(|p| p.0).collect::<Vec<_>>()));
     run.set("depth", json!(DEPTH));
     if !run.thorough {
